@@ -444,4 +444,23 @@ theorem code_action_offered_iff {μ : Type} [DecidableEq μ] (covers : Bool) (lo
 example : codeActionOffered true "Doc" "Doc" true = true := by decide
 example : codeActionOffered true "A" "Doc" true = false := by decide
 
+/-- **Give-up path** (ast_differ.rs:367-371, 419-424): when the comment stores differ the only edit is
+`Location::full_document` with the pretty-printed new module, and applying it to any document with
+fewer than 2^32 lines yields exactly that text — nothing of the old document survives. -/
+theorem full_document_edit_text {β : Type} (doc : Doc) (printedNew : Text) (locsI locsT : List (Pos × Pos))
+    (rndI : α → Text) (rndT : β → Text) (sI : Script α) (sT : Script β) (hlen : doc.length ≤ 4294967295) :
+    applyEdits doc (moduleDiffEdits false printedNew locsI locsT rndI rndT sI sT) = printedNew := by
+  have h := flatten_length_le_off doc 4294967295 4294967295 hlen
+  simp only [moduleDiffEdits, applyEdits, fullDocument, Bool.false_eq_true, ↓reduceIte, List.map_cons,
+    List.map_nil, applyTE]
+  have h0 : off doc (0, 0) = 0 := by simp [off]
+  rw [h0]
+  simp only [Nat.sub_zero, List.take_zero, List.nil_append]
+  rw [List.drop_eq_nil_of_le h]
+  simp
+
+theorem module_diff_edits_equal_comments {β : Type} (printedNew : Text) (locsI locsT : List (Pos × Pos))
+    (rndI : α → Text) (rndT : β → Text) (sI : Script α) (sT : Script β) :
+    moduleDiffEdits true printedNew locsI locsT rndI rndT sI sT = moduleEdits locsI locsT rndI rndT sI sT := rfl
+
 end SamVerif.Differ
